@@ -14,7 +14,11 @@ func generate(tier string, r *rng.R) []fw.Case {
 	}
 	var cs []fw.Case
 	for i := 0; i < n; i++ {
-		cs = append(cs, envh.GenCase(r.Fork(), profile))
+		if i%3 == 0 {
+			cs = append(cs, clusterCase(r.Fork()))
+		} else {
+			cs = append(cs, envh.GenCase(r.Fork(), profile))
+		}
 	}
 	return cs
 }
